@@ -252,6 +252,22 @@ class VExt(Val):
         return f"VExt({self.dotted})"
 
 
+class VMaybe(Val):
+    """local bound on some merged branches only: `defined` is the condition under which it is bound"""
+    kind = "maybe"
+
+    def __init__(self, defined, inner):
+        self.defined, self.inner = defined, inner
+
+
+class VSpecFn(Val):
+    """ghost function usable in spec expressions: fn(interp, [Val]) -> Val"""
+    kind = "specfn"
+
+    def __init__(self, fn, name="ghost"):
+        self.fn, self.name = fn, name
+
+
 class VExc(Val):
     kind = "exc"
 
@@ -376,8 +392,19 @@ class TTuple(T):
     def __repr__(self): return f"tuple{self.ts}"
 
 
+_TYPE_TAGS = {}
+REF_TYPE = z3.Function("ref_type", I, I)      # dynamic type tag of a heap reference: differently typed objects never alias
+
+
+def type_tag(desc):
+    if desc not in _TYPE_TAGS:
+        _TYPE_TAGS[desc] = len(_TYPE_TAGS) + 1
+    return _TYPE_TAGS[desc]
+
+
 class TSList(T):
     def __init__(self, elem, nullable=False): self.elem, self.nullable = elem, nullable
+    def tag(self): return type_tag("list:" + repr(self.elem).replace("opt[", "").replace("]", ""))
     def comps(self): return [("", I)]
     def pack(self, v, ctx):
         if v.kind == "none":
@@ -387,7 +414,8 @@ class TSList(T):
         return [v.z]
     def unpack(self, zs): return VSList(zs[0], self.elem, self.nullable)
     def facts(self, v, ctx):
-        return [] if self.nullable else [v.z != 0]
+        t = REF_TYPE(v.z) == self.tag()
+        return [z3.Or(v.z == 0, t)] if self.nullable else [v.z != 0, t]
     def __repr__(self): return f"list[{self.elem}]"
 
 
@@ -401,8 +429,10 @@ class TSObj(T):
             raise EngineError(f"expected SMT object {self.cname}, got {v}")
         return [v.z]
     def unpack(self, zs): return VSObj(zs[0], self.cname, self.nullable)
+    def tag(self): return type_tag("obj:" + self.cname)
     def facts(self, v, ctx):
-        return [] if self.nullable else [v.z != 0]
+        t = REF_TYPE(v.z) == self.tag()
+        return [z3.Or(v.z == 0, t)] if self.nullable else [v.z != 0, t]
     def __repr__(self): return f"obj {self.cname}"
 
 
